@@ -317,7 +317,9 @@ def printer_stream(ctx, budget):
 # ("pw", a, num) ("me", m, a) ("cp", kind, a); num = index into NUMS / EXPS
 # --------------------------------------------------------------------------
 NUMS = [2, -3, 0.5, -1.5, np.float64(0.25), np.float64(-2.0), np.int64(3), np.float32(-0.5),
-        np.array(1.5), np.int32(-2), 1e-05, 7]
+        np.array(1.5), np.int32(-2), 1e-05, 7,
+        # NumPy scalars whose exact value has no short decimal form (the factor is the scalar's VALUE)
+        np.float32(0.1), np.float16(0.1), np.array(0.3, dtype=np.float32), np.float16(-1.3)]
 EXPS = [2, 3, np.int64(2), -1, 1, 0]
 METHODS = ["normalized", "unitary", "linv", "rinv"]
 CPKINDS = ["copy", "reinterpret", "translate", "reinterpret_none"]
@@ -339,6 +341,8 @@ def erpn(e):
         return f"t:{toks}@{rpn(inner, '|')}"
     if k in ("add", "sub", "mul"):
         return erpn(e[1]) + ";" + erpn(e[2]) + ";" + k
+    if k == "rb":                       # reflected binding: the same expression as e[1] * e[2]
+        return erpn(e[1]) + ";" + erpn(e[2]) + ";mul"
     if k in ("neg", "inv"):
         return erpn(e[1]) + ";" + k
     if k == "sr":
@@ -365,6 +369,8 @@ def describe(e):
         return f"sym({TEXTS[e[1]][0]!r})"
     if k in ("add", "sub", "mul"):
         return f"({describe(e[1])} {dict(add='+', sub='-', mul='*')[k]} {describe(e[2])})"
+    if k == "rb":
+        return f"{describe(e[2])}.__rmul__({describe(e[1])})"
     if k == "neg":
         return f"(-{describe(e[1])})"
     if k == "inv":
@@ -447,6 +453,13 @@ def _build(e, leaf, text, vocab, memo):
         return b(e[1]) - b(e[2])
     if k == "mul":
         return b(e[1]) * b(e[2])
+    if k == "rb":
+        # the reflected path Python takes for `x * y` when type(x) does not handle it: y.__rmul__(x) (= y.rbind(x))
+        x, y = b(e[1]), b(e[2])
+        r = y.__rmul__(x)
+        if r is NotImplemented:
+            raise TypeError("__rmul__ returned NotImplemented")
+        return r
     if k == "neg":
         return -b(e[1])
     if k == "inv":
@@ -504,7 +517,7 @@ def expr_universe(rng, which, depth3, nrandom, maxdepth):
         out = []
         for a in pool:
             out += unaries(a)
-        for k in ("add", "sub", "mul"):
+        for k in ("add", "sub", "mul") + (("rb",) if which == "name" else ()):
             out += [(k, a, b) for a in pool for b in pool]
         return out
     l1 = atoms
@@ -522,7 +535,7 @@ def expr_universe(rng, which, depth3, nrandom, maxdepth):
                 return ("t", rng.randrange(len(TEXTS)))
             return ("s", rng.choice("ABCD"))
         if rng.random() < 0.45:
-            return (rng.choice(["add", "sub", "mul"]), rnd(depth - 1), rnd(depth - 1))
+            return (rng.choice(["add", "sub", "mul"] + (["rb"] if which == "name" else [])), rnd(depth - 1), rnd(depth - 1))
         return rng.choice(unaries(rnd(depth - 1)))
     for _ in range(nrandom):
         res.append((rnd(rng.randint(3, maxdepth)), "random-deeper"))
